@@ -37,6 +37,7 @@ fn main() {
         });
     }
     let code = match args[1].as_str() {
+        "C18-one" => faults::run_c18_one(&args[2], args.get(3).map(|s| s.as_str()).unwrap_or("")),
         "replay" => {
             let doc: serde_json::Value = std::fs::read_to_string(&args[2])
                 .ok()
@@ -82,7 +83,13 @@ fn main() {
                 "C05" => grid::run_c05(tier),
                 "C16" => grid::run_c16(tier),
                 "C17" => grid::run_c17(tier),
-                "C18" => faults::run_c18(tier),
+                "C18" => {
+                    if args.iter().any(|a| a == "--worker") {
+                        faults::run_c18(tier)
+                    } else {
+                        faults::run_c18_isolated(tier)
+                    }
+                }
                 "C09" => faults::run_c09(tier),
                 "C03" | "C08" | "C12" | "C13" | "C14" => conc_checks::run(p, tier),
                 _ => {
